@@ -1201,4 +1201,179 @@ theorem mpf_cmp_si_spec (u : F) (hu : u.wf) (v : Int) (h1 : LONG_MIN ≤ v) (h2 
 example : mpf_cmp_si ⟨-1, 1, [2 ^ 63]⟩ LONG_MIN = 0 ∧ mpf_cmp_si ⟨-2, 1, [1, 2 ^ 63]⟩ LONG_MIN = -1 ∧
     mpf_cmp_si ⟨1, 0, [1]⟩ 0 = 1 ∧ mpf_cmp_si ⟨-1, 0, [1]⟩ (-1) = 1 ∧ mpf_cmp_si ⟨1, 1, [5]⟩ (-5) = 1 := by decide
 
+/-! ## 9. mpf: fits_*_p, get_si / get_ui, integer_p (F.truncInt = the value truncated toward zero) -/
+
+/-- mpf_fits_s*_p: true iff the truncated value lies in the signed type's range [-minabs, maxv]. -/
+theorem mpf_fits_s_iff_range (maxv minabs : Nat) (hm : maxv < B) (hn : minabs < B) (f : F) (hf : f.wf) :
+    mpf_fits_s maxv minabs f = true ↔ (-(minabs : Int) ≤ f.truncInt ∧ f.truncInt ≤ maxv) := by
+  obtain ⟨t0, t1, t2, _⟩ := F.trunc_facts hf
+  have hz := hf.2.2.2
+  unfold mpf_fits_s F.truncInt
+  by_cases s0 : f.size = 0
+  · have := t0 (by have := hz s0; omega)
+    rw [if_pos s0, this]; simp
+  · rw [if_neg s0]
+    by_cases e0 : f.exp < 1
+    · have := t0 (by omega)
+      rw [if_pos e0, this]; simp
+    · rw [if_neg e0]
+      by_cases e1 : f.exp = 1
+      · obtain ⟨k, k1, k2⟩ := t1 e1
+        rw [if_pos e1, ← k]
+        generalize f.truncNat = T at *
+        by_cases sn : f.size < 0
+        · rw [if_pos sn, if_neg (by omega)]; simp only [decide_eq_true_eq]; omega
+        · rw [if_neg sn, if_pos (by omega)]; simp only [decide_eq_true_eq]; omega
+      · have := t2 (by omega)
+        rw [if_neg e1]
+        generalize f.truncNat = T at *
+        constructor
+        · intro h; exact absurd h (by decide)
+        · intro ⟨l, u⟩; exfalso; split at l <;> omega
+
+/-- mpf_fits_u*_p: true iff the truncated value lies in [0, maxv] (so -0.5 fits, -1.5 does not). -/
+theorem mpf_fits_u_iff_range (maxv : Nat) (hm : maxv < B) (f : F) (hf : f.wf) :
+    mpf_fits_u maxv f = true ↔ (0 ≤ f.truncInt ∧ f.truncInt ≤ maxv) := by
+  obtain ⟨t0, t1, t2, _⟩ := F.trunc_facts hf
+  have hz := hf.2.2.2
+  unfold mpf_fits_u F.truncInt
+  by_cases e0 : f.exp < 1
+  · have := t0 (by omega)
+    rw [if_pos e0, this]; simp
+  · rw [if_neg e0]
+    have s0 : f.size ≠ 0 := fun e => by have := hz e; omega
+    have tpos : 1 ≤ f.truncNat := by
+      by_cases e1 : f.exp = 1
+      · exact (t1 e1).2.1
+      · have := t2 (by omega); have := B_pos; omega
+    by_cases sn : f.size ≤ 0
+    · rw [if_pos sn, if_pos (show f.size < 0 by omega)]
+      simp only [decide_eq_true_eq]
+      constructor
+      · intro h; exact absurd h s0
+      · intro ⟨l, _⟩; omega
+    · rw [if_neg sn, if_neg (show ¬ f.size < 0 by omega)]
+      by_cases e1 : f.exp = 1
+      · obtain ⟨k, k1, k2⟩ := t1 e1
+        rw [if_pos e1, ← k]; simp only [decide_eq_true_eq]; omega
+      · have := t2 (by omega)
+        rw [if_neg e1]
+        constructor
+        · intro h; exact absurd h (by decide)
+        · intro ⟨_, u⟩; omega
+
+/-- The eight mpf predicates (six documented + MPIR's _ui/_si) against the ranges of the C types. -/
+theorem mpf_fits_iff_range (f : F) (hf : f.wf) :
+    (mpf_fits_u (2 ^ 64 - 1) f = true ↔ 0 ≤ f.truncInt ∧ f.truncInt ≤ 2 ^ 64 - 1) ∧
+    (mpf_fits_s (2 ^ 63 - 1) (2 ^ 63) f = true ↔ -(2 ^ 63) ≤ f.truncInt ∧ f.truncInt ≤ 2 ^ 63 - 1) ∧
+    (mpf_fits_u (2 ^ 32 - 1) f = true ↔ 0 ≤ f.truncInt ∧ f.truncInt ≤ 2 ^ 32 - 1) ∧
+    (mpf_fits_s (2 ^ 31 - 1) (2 ^ 31) f = true ↔ -(2 ^ 31) ≤ f.truncInt ∧ f.truncInt ≤ 2 ^ 31 - 1) ∧
+    (mpf_fits_u (2 ^ 16 - 1) f = true ↔ 0 ≤ f.truncInt ∧ f.truncInt ≤ 2 ^ 16 - 1) ∧
+    (mpf_fits_s (2 ^ 15 - 1) (2 ^ 15) f = true ↔ -(2 ^ 15) ≤ f.truncInt ∧ f.truncInt ≤ 2 ^ 15 - 1) := by
+  have hB : B = 2 ^ 64 := rfl
+  have c64 : ((2 ^ 64 - 1 : Nat) : Int) = 2 ^ 64 - 1 := by norm_num
+  have c63 : ((2 ^ 63 - 1 : Nat) : Int) = 2 ^ 63 - 1 := by norm_num
+  have c32 : ((2 ^ 32 - 1 : Nat) : Int) = 2 ^ 32 - 1 := by norm_num
+  have c31 : ((2 ^ 31 - 1 : Nat) : Int) = 2 ^ 31 - 1 := by norm_num
+  have c16 : ((2 ^ 16 - 1 : Nat) : Int) = 2 ^ 16 - 1 := by norm_num
+  have c15 : ((2 ^ 15 - 1 : Nat) : Int) = 2 ^ 15 - 1 := by norm_num
+  have d63 : ((2 ^ 63 : Nat) : Int) = 2 ^ 63 := by norm_num
+  have d31 : ((2 ^ 31 : Nat) : Int) = 2 ^ 31 := by norm_num
+  have d15 : ((2 ^ 15 : Nat) : Int) = 2 ^ 15 := by norm_num
+  refine ⟨?_, ?_, ?_, ?_, ?_, ?_⟩
+  · have h := mpf_fits_u_iff_range (2 ^ 64 - 1) (by rw [hB]; norm_num) f hf; rw [c64] at h; exact h
+  · have h := mpf_fits_s_iff_range (2 ^ 63 - 1) (2 ^ 63) (by rw [hB]; norm_num) (by rw [hB]; norm_num) f hf
+    rw [c63, d63] at h; exact h
+  · have h := mpf_fits_u_iff_range (2 ^ 32 - 1) (by rw [hB]; norm_num) f hf; rw [c32] at h; exact h
+  · have h := mpf_fits_s_iff_range (2 ^ 31 - 1) (2 ^ 31) (by rw [hB]; norm_num) (by rw [hB]; norm_num) f hf
+    rw [c31, d31] at h; exact h
+  · have h := mpf_fits_u_iff_range (2 ^ 16 - 1) (by rw [hB]; norm_num) f hf; rw [c16] at h; exact h
+  · have h := mpf_fits_s_iff_range (2 ^ 15 - 1) (2 ^ 15) (by rw [hB]; norm_num) (by rw [hB]; norm_num) f hf
+    rw [c15, d15] at h; exact h
+
+-- non-vacuity: -(2^31 + 0.5) truncates to -2^31 and fits an int; -(2^31 + 1.5) does not; -0.5 fits unsigned; 65536.5 does not fit ushort
+example : mpf_fits_s (2 ^ 31 - 1) (2 ^ 31) ⟨-2, 1, [2 ^ 63, 2 ^ 31]⟩ = true ∧ mpf_fits_s (2 ^ 31 - 1) (2 ^ 31) ⟨-2, 1, [2 ^ 63, 2 ^ 31 + 1]⟩ = false ∧
+    mpf_fits_u (2 ^ 16 - 1) ⟨-1, 0, [2 ^ 63]⟩ = true ∧ mpf_fits_u (2 ^ 16 - 1) ⟨2, 1, [2 ^ 63, 65536]⟩ = false ∧
+    F.truncInt ⟨-2, 1, [2 ^ 63, 2 ^ 31]⟩ = -(2 ^ 31) := by decide
+
+/-- mpf_get_ui: the low 64 bits of |op| truncated to an integer, for every op;
+    mpf_get_si: the truncated value itself whenever it fits a long. -/
+theorem mpf_get_si_ui_spec (f : F) (hf : f.wf) :
+    mpf_get_ui f = f.truncNat % 2 ^ 64 ∧
+    (LONG_MIN ≤ f.truncInt → f.truncInt ≤ LONG_MAX → mpf_get_si f = f.truncInt) := by
+  obtain ⟨t0, t1, t2, t3⟩ := F.trunc_facts hf
+  have hz := hf.2.2.2
+  have hB : B = 2 ^ 64 := rfl
+  constructor
+  · unfold mpf_get_ui
+    by_cases e : f.exp > 0
+    · rw [if_pos e, ← t3 e, hB]
+    · rw [if_neg e, t0 (by omega)]; rfl
+  · intro l u
+    unfold LONG_MIN at l; unfold LONG_MAX at u
+    unfold mpf_get_si
+    by_cases e0 : f.exp ≤ 0
+    · rw [if_pos e0]; unfold F.truncInt; rw [t0 e0]; simp
+    · rw [if_neg e0]
+      have s0 : f.size ≠ 0 := fun e => by have := hz e; omega
+      have h3 := t3 (by omega)
+      dsimp only
+      rw [← h3]
+      unfold F.truncInt at l u ⊢
+      by_cases e1 : f.exp = 1
+      · obtain ⟨_, k1, k2⟩ := t1 e1
+        generalize f.truncNat = T at *
+        by_cases sp : f.size > 0
+        · rw [if_pos sp, if_neg (by omega)]; rw [if_neg (by omega)] at l u; rw [hB] at *; omega
+        · rw [if_neg sp, if_pos (by omega)]; rw [if_pos (by omega)] at l u; rw [hB] at *; omega
+      · have := t2 (by omega)
+        generalize f.truncNat = T at *
+        exfalso; rw [hB] at this; split at l <;> omega
+
+example : mpf_get_si ⟨-2, 1, [2 ^ 63, 2 ^ 63]⟩ = LONG_MIN ∧ mpf_get_ui ⟨3, 2, [9, 7, 1]⟩ = 7 ∧ mpf_get_si ⟨2, 1, [2 ^ 63, 5]⟩ = 5 ∧
+    mpf_get_ui ⟨1, 3, [1]⟩ = 0 ∧ F.truncNat ⟨3, 2, [9, 7, 1]⟩ = 2 ^ 64 + 7 := by decide
+
+/-- mpf_integer_p: true iff the value is an integer, i.e. the low exponent is non-negative or the mantissa is
+    divisible by B^(-lowExp). -/
+theorem mpf_integer_p_spec (f : F) (hf : f.wf) :
+    mpf_integer_p f = true ↔ (0 ≤ f.lowExp ∨ val f.d % B ^ (-f.lowExp).toNat = 0) := by
+  obtain ⟨u0, u1, u2⟩ := F.wf_bounds hf
+  have ul := hf.1
+  unfold mpf_integer_p F.lowExp
+  by_cases s0 : f.size = 0
+  · rw [if_pos s0, u0 s0]; simp
+  · rw [if_neg s0]
+    have vpos : 0 < val f.d := lt_of_lt_of_le (Bpow_pos _) (u1 s0)
+    by_cases e0 : f.exp ≤ 0
+    · rw [if_pos e0]
+      have : val f.d % B ^ (-(f.exp - (f.size.natAbs : Int))).toNat = val f.d :=
+        Nat.mod_eq_of_lt (lt_of_lt_of_le u2 (pow_le_pow_B (by omega)))
+      rw [this]
+      constructor
+      · intro h; exact absurd h (by decide)
+      · intro h; rcases h with h | h <;> omega
+    · rw [if_neg e0]
+      dsimp only
+      by_cases c : (f.size.natAbs : Int) - f.exp ≤ 0
+      · have : ((f.size.natAbs : Int) - f.exp).toNat = 0 := by omega
+        rw [this]; simp only [List.take_zero, List.all_nil, true_iff]; left; omega
+      · have hk : ((f.size.natAbs : Int) - f.exp).toNat ≤ f.d.length := by omega
+        have e := val_take_drop f.d _ hk
+        have lt : val (f.d.take ((f.size.natAbs : Int) - f.exp).toNat) < B ^ ((f.size.natAbs : Int) - f.exp).toNat := by
+          have := val_lt _ (Limbs_take hf.2.1 ((f.size.natAbs : Int) - f.exp).toNat)
+          rwa [List.length_take, Nat.min_eq_left hk] at this
+        have hmod : val f.d % B ^ ((f.size.natAbs : Int) - f.exp).toNat = val (f.d.take ((f.size.natAbs : Int) - f.exp).toNat) := by
+          rw [e, Nat.add_mul_mod_self_left, Nat.mod_eq_of_lt lt]
+        have e1 : (-(f.exp - (f.size.natAbs : Int))).toNat = ((f.size.natAbs : Int) - f.exp).toNat := by omega
+        rw [e1, hmod, List.all_eq_true, val_eq_zero_iff]
+        constructor
+        · intro h; right; intro x hx; simpa using h x hx
+        · intro h x hx
+          rcases h with h | h
+          · omega
+          · simpa using h x hx
+
+example : mpf_integer_p ⟨3, 2, [0, 7, 1]⟩ = true ∧ mpf_integer_p ⟨3, 2, [9, 7, 1]⟩ = false ∧ mpf_integer_p ⟨1, 5, [1]⟩ = true ∧
+    mpf_integer_p ⟨1, 0, [1]⟩ = false := by decide
+
 end Mpir.Conv
